@@ -62,6 +62,20 @@ def _fin(acc):
     return Poly({k: v for k, v in acc.items() if v}) if acc else ZERO
 
 
+def _channels_last(a):
+    """torch keeps the channels_last memory format of a conv input for its output (so that later .view/.flatten behave
+    differently from the contiguous case): detect an NHWC-strided (N,C,H,W) array"""
+    if a.ndim != 4 or a.shape[1] <= 1 or a.shape[2] * a.shape[3] <= 1 or a.flags['C_CONTIGUOUS']:
+        return False
+    return bool(np.transpose(a, (0, 2, 3, 1)).flags['C_CONTIGUOUS'])
+
+
+def _like_input_format(out, x_arr):
+    if _channels_last(x_arr) and out.shape[1] > 1:
+        return np.ascontiguousarray(np.transpose(out, (0, 2, 3, 1))).transpose(0, 3, 1, 2)
+    return out
+
+
 def conv2d(input, weight, bias=None, stride=1, padding=0, dilation=1, groups=1):
     x, w = input, weight
     _check_conv_types(x, w, bias)
@@ -132,6 +146,8 @@ def conv2d(input, weight, bias=None, stride=1, padding=0, dilation=1, groups=1):
                     out[n, o, oy, ox] = _fin(acc)
     if unb:
         out = out[0]
+    else:
+        out = _like_input_format(out, X)
     return x._fresh(out, parents=(w,) + ((bias,) if bias is not None else ()))
 
 
@@ -190,6 +206,7 @@ def conv_transpose2d(input, weight, bias=None, stride=1, padding=0, output_paddi
     if bias is not None:
         for o in range(O):
             out[:, o] = out[:, o] + bias.a[o]
+    out = _like_input_format(out, X)
     return x._fresh(out, parents=(w,) + ((bias,) if bias is not None else ()))
 
 
